@@ -592,3 +592,135 @@ class Model:
 
     def login_objects(self, version):
         return [o for o in self.objects if o.login_versions and o.covers_login(version)]
+
+
+# ----------------------------------------------------------------------------------------------
+# reference layouts (the common layout IR, see DESIGN.md §2)
+# ----------------------------------------------------------------------------------------------
+# leaf table written from wowm_language/src/spec/lang-spec.md "Built-in Types"
+LEAF = {
+    "u8": ("int", 1, "le", False), "u16": ("int", 2, "le", False), "u32": ("int", 4, "le", False),
+    "u64": ("int", 8, "le", False), "i8": ("int", 1, "le", True), "i16": ("int", 2, "le", True),
+    "i32": ("int", 4, "le", True), "i64": ("int", 8, "le", True),
+    "u16_be": ("int", 2, "be", False), "u32_be": ("int", 4, "be", False), "u64_be": ("int", 8, "be", False),
+    "f32": ("float", 4, "le"),
+    "Bool": ("bool", 1), "Bool32": ("bool", 4),
+    "Guid": ("guid",), "PackedGuid": ("packedguid",),
+    "CString": ("cstring",), "SizedCString": ("sizedcstring",), "String": ("string",),
+    "DateTime": ("datetime",), "IpAddress": ("int", 4, "be", False),
+    "Gold": ("int", 4, "le", False), "Spell": ("int", 4, "le", False), "Item": ("int", 4, "le", False),
+    "Seconds": ("int", 4, "le", False), "Milliseconds": ("int", 4, "le", False),
+    "Level": ("int", 1, "le", False), "Level16": ("int", 2, "le", False), "Level32": ("int", 4, "le", False),
+    "Spell16": ("int", 2, "le", False), "Population": ("float", 4, "le"),
+}
+BUILTIN_COMPLEX = {
+    "UpdateMask", "AuraMask", "MonsterMoveSplines", "AchievementDoneArray", "AchievementInProgressArray",
+    "EnchantMask", "InspectTalentGearMask", "NamedGuid", "VariableItemRandomProperty", "AddonArray", "CacheMask",
+}
+# semantic wrapper kinds (used to check the value wrappers, not the bytes)
+SEMANTIC = {"Gold", "Spell", "Item", "Seconds", "Milliseconds", "Level", "Level16", "Level32", "Spell16", "Population",
+            "IpAddress", "DateTime"}
+
+
+class RefItem(dict):
+    pass
+
+
+class RefLayouts:
+    """Reference layout of a container in a scope.  lookup(name) resolves user types for that scope."""
+
+    def __init__(self, model, lookup):
+        self.model = model
+        self.lookup = lookup  # name -> Obj or None
+
+    def type_item(self, d, ty, upcast):
+        if ty in LEAF:
+            it = {"k": LEAF[ty][0], "leaf": LEAF[ty], "wty": ty}
+            return it
+        if ty in BUILTIN_COMPLEX:
+            return {"k": "builtin", "bname": ty, "wty": ty}
+        o = self.lookup(ty)
+        if o is None:
+            raise WowmError(f"{d.line}: unknown type {ty}")
+        a = o.ast
+        if isinstance(a, Definer):
+            wire = upcast or a.base
+            return {"k": a.kind, "obj": o, "wire": wire, "base": a.base, "wty": ty}
+        return {"k": "struct", "obj": o, "wty": ty}
+
+    def members(self, ms, decls):
+        """-> list of items.  `decls` maps field name -> item (for if variables and array counts)."""
+        out = []
+        for m in ms:
+            if isinstance(m, Decl):
+                if m.array is not None:
+                    elem = self.type_item(m, m.ty, None)
+                    it = {"k": "array", "count": m.array, "elem": elem, "compressed": "true" in m.tags.get("compressed", []),
+                          "name": m.name, "line": m.line}
+                else:
+                    it = self.type_item(m, m.ty, m.upcast)
+                    it["name"] = m.name
+                    it["line"] = m.line
+                    if m.value is not None:
+                        if m.value[1] == "self.size":
+                            it["selfsize"] = True
+                        else:
+                            it["const"] = m.value
+                    if "maximum_length" in m.tags:
+                        it["maximum_length"] = int(m.tags["maximum_length"][0])
+                decls[m.name] = it
+                out.append(it)
+            elif isinstance(m, If):
+                var = m.var
+                vit = decls.get(var)
+                if vit is None:
+                    raise WowmError(f"if on undeclared variable {var}")
+                for conds, _ in m.arms:
+                    for (v, op, en) in conds:
+                        if v != var:
+                            raise WowmError(f"if statement mixes variables {var} and {v}")
+                definer = vit["obj"].ast
+                if vit["k"] == "enum":
+                    table = {}
+                    arms = [(conds, self.members(ams, decls)) for conds, ams in m.arms]
+                    els = self.members(m.else_members, decls) if m.else_members is not None else []
+                    for (en, val, *_r) in definer.fields:
+                        chosen = None
+                        for conds, items in arms:
+                            hit = False
+                            for (_v, op, e2) in conds:
+                                if op == "==" and e2 == en:
+                                    hit = True
+                                elif op == "!=" and e2 != en:
+                                    hit = True
+                                elif op == "&":
+                                    raise WowmError("& on enum")
+                            if hit:
+                                chosen = items
+                                break
+                        table[en] = chosen if chosen is not None else els
+                    out.append({"k": "switch", "var": var, "table": table, "line": m.line})
+                elif vit["k"] == "flag":
+                    arms = []
+                    for conds, ams in m.arms:
+                        ens = []
+                        for (_v, op, e2) in conds:
+                            if op != "&":
+                                raise WowmError("==/!= on flag")
+                            ens.append(e2)
+                        arms.append((ens, self.members(ams, decls)))
+                    els = self.members(m.else_members, decls) if m.else_members is not None else []
+                    out.append({"k": "flagif", "var": var, "arms": arms, "else": els, "line": m.line})
+                else:
+                    raise WowmError(f"if on non-definer variable {var}")
+            elif isinstance(m, Optional):
+                out.append({"k": "optional", "name": m.name, "items": self.members(m.members, decls), "line": m.line})
+        return out
+
+    def container(self, c):
+        decls = {}
+        items = self.members(c.members, decls)
+        if "true" in c.tags.get("compressed", []):
+            items = [{"k": "int", "leaf": LEAF["u32"], "wty": "u32", "name": "decompressed_size", "synthetic": True},
+                     {"k": "zlib", "items": items}]
+        return items
